@@ -959,7 +959,11 @@ class URL:
                 return from_parts(self._scheme, self._netloc, path, "", "")
             return self
         parts = path.split("/")
-        return from_parts(self._scheme, self._netloc, "/".join(parts[:-1]), "", "")
+        parent_path = "/".join(parts[:-1])
+        if not parent_path and not self._netloc and path[0] == "/":
+            # keep the root of a rooted path, there is no authority to imply it
+            parent_path = "/"
+        return from_parts(self._scheme, self._netloc, parent_path, "", "")
 
     @cached_property
     def raw_name(self) -> str:
